@@ -5,6 +5,7 @@ pub mod memform;
 pub mod mov;
 pub mod bits;
 pub mod ea;
+pub mod decode;
 
 use crate::hv::e1::Case;
 use crate::hv::known::Known;
@@ -15,6 +16,7 @@ pub fn build(id: &str, tier: Tier, seed: u64, known: &[Known]) -> Option<Prop> {
         "C01" => mov::c01(tier, seed),
         "C02" => alu::c02(tier, seed),
         "C04" => bits::c04(tier, seed),
+        "C07" => decode::c07(tier, seed),
         "C08" => ea::c08(tier, seed),
         "C03" => alu::c03(tier, seed),
         _ => return None,
